@@ -1,7 +1,7 @@
 """C02 - reported workflow status is truthful about the tasks."""
 from orquesta import statuses as S
 
-from vt.harness import kernels
+from vt.harness import A5, kernels
 from vt.harness.common import history_body, ob
 from vt.monitors import C02Truth, OracleTracker
 
@@ -19,4 +19,5 @@ def obligations(tier):
         obs.append(ob("C02", "e2c." + did, "vt.harness.C02:lifecycle",
                       {"did": did, "steps": 5, "control": "either", "bits": True}, timeout=600))
     obs.append(ob("C02", "twin.D04", "vt.harness.C02:lifecycle", {"did": "D04", "steps": 5, "twin": True}, timeout=60))
+    obs.append(A5.obligation("C02", tier))
     return obs
